@@ -74,6 +74,9 @@ fn main() {
                 println!("{}", name);
             }
         }
+        "gillham-table" => {
+            print!("{}", monitors::c05::dump_gillham_table());
+        }
         "replay" => {
             let script = std::fs::read_to_string(&args[2]).unwrap_or_else(|e| {
                 eprintln!("cannot read {}: {}", args[2], e);
